@@ -1040,7 +1040,7 @@ fn gen_ops(pool: &[String], size_class: u64) -> Vec<Op> {
         ops.extend(tail);
         return ops;
     }
-    if size_class == 5 && sim::chance("ops.count_wrap", 1, 24) {
+    if size_class == 5 && sim::chance("ops.count_wrap", 1, 6) {
         // An unbounded target and more records of one section than a 16-bit
         // count can say: 65535 go in, the next one is refused.
         ops.clear();
